@@ -52,7 +52,7 @@ fn token_of_write(rec: &Rec) -> Option<u64> { if let Outcome::Write { token, .. 
 
 /// C02: a returned value was written to that key by a write that began before the read ended, and no later
 /// overwrite or delete had completed before the read began. One-directional: None is always allowed.
-pub fn check_c02(history: &History, start_clock: u64) -> Check {
+pub fn check_c02(history: &History, start_clock: u64, as_c02: bool) -> Check {
     let writes = writes_of(history);
     let mut by_token: HashMap<u64, usize> = HashMap::new();
     for (index, write) in writes.iter().enumerate() { if let Some(token) = token_of_write(write.rec) { by_token.insert(token, index); } }
@@ -94,7 +94,7 @@ pub fn check_c02(history: &History, start_clock: u64) -> Check {
                         _ => other.status == Some(St::Accepted) && other.seen_done > 0 && other.seen_done < rec.start,
                     };
                     if completed_before_read {
-                        let (tag, what) = if other.kind == "delete" { ("C04/read-after-delete", "C04") } else { ("C02/stale-value", "C02") };
+                        let (tag, what) = if other.kind == "delete" { if as_c02 { ("C02/deleted-value", "C02") } else { ("C04/read-after-delete", "C04") } } else { ("C02/stale-value", "C02") };
                         return Err(Failure::new(what, tag, format!(
                             "thread {} op {}: a read of key {} (began at stamp {}) returned {:#x}, written by thread {} op {} ({} complete by stamp {}); but thread {} op {} ({}) began at stamp {} after that write was complete and had itself completed at stamp {} before the read began",
                             rec.thread, rec.index, k, rec.start, value, write.rec.thread, write.rec.index, write.kind, visible_by, other.rec.thread, other.rec.index, other.kind, other.rec.start, if other.kind == "delete" || other.in_place == Some(true) { other.rec.end } else { other.seen_done })));
@@ -279,6 +279,8 @@ pub struct ConcStats {
     pub monitor_samples: u64,
     pub evicted_or_rejected: bool,
     pub unawaited_same_key: bool,
+    pub read_between_delete_and_ack: bool,
+    pub guard_held_during_delete: bool,
 }
 
 pub fn conc_stats(case: &ConcCase, history: &History) -> ConcStats {
@@ -314,6 +316,15 @@ pub fn conc_stats(case: &ConcCase, history: &History) -> ConcStats {
     stats.handovers = (history.final_stats.get("access_added").copied().unwrap_or(0) + history.final_stats.get("access_dropped").copied().unwrap_or(0)) / buf.max(1);
     stats.drops = history.final_stats.get("access_dropped").copied().unwrap_or(0);
     stats.sweeps_during_run = !history.clock_log.is_empty();
+    for write in writes.iter().filter(|write| write.kind == "delete" && !write.err && write.seen_done > 0) {
+        for rec in &history.recs {
+            match &rec.outcome {
+                Outcome::Read { keys, .. } if keys.contains(&write.key) && rec.start > write.rec.end && rec.end < write.seen_done => stats.read_between_delete_and_ack = true,
+                Outcome::HoldRef { .. } if rec.start < write.rec.start && rec.end > write.rec.start => stats.guard_held_during_delete = true,
+                _ => {}
+            }
+        }
+    }
     for (_, list) in &by_key {
         for pair in list.windows(2) {
             if pair[1].rec.start < pair[0].seen_done.max(pair[0].rec.end) { stats.unawaited_same_key = true; }
@@ -332,6 +343,9 @@ pub enum ConcProfile {
     Reads,
     Deadlock,
     Bursts,
+    /// one deleter cycling put / unawaited delete / immediate reads on a few keys, readers and guard holders on the same
+    /// shard, command worker slowed down: the window between delete() returning and its acknowledgement is wide
+    DeleteWindow,
 }
 
 fn cop_strategy(profile: ConcProfile, max_key: u8) -> BoxedStrategy<COp> {
@@ -349,7 +363,7 @@ fn cop_strategy(profile: ConcProfile, max_key: u8) -> BoxedStrategy<COp> {
         ConcProfile::Shutdown => prop_oneof![6 => put, 3 => upsert, 3 => delete, 5 => read, 1 => Just(COp::AwaitAll), 1 => Just(COp::Shutdown)].boxed(),
         ConcProfile::Reads => prop_oneof![1 => put, 30 => read, 1 => hold].boxed(),
         ConcProfile::Deadlock => prop_oneof![5 => put, 6 => upsert, 3 => delete, 6 => read, 2 => hold, 1 => Just(COp::AwaitAll)].boxed(),
-        ConcProfile::Bursts => prop_oneof![6 => put, 2 => upsert, 4 => delete, 1 => read].boxed(),
+        ConcProfile::Bursts | ConcProfile::DeleteWindow => prop_oneof![6 => put, 2 => upsert, 4 => delete, 1 => read].boxed(),
     }
 }
 
@@ -364,7 +378,34 @@ fn injection_strategy(profile: ConcProfile) -> BoxedStrategy<Injection> {
     (prop::collection::vec((site, 20u8..=255, delay), 0..=5), any::<u64>()).prop_map(|(sites, seed)| Injection { sites, seed: seed | 1 }).boxed()
 }
 
+fn delete_window_strategy(thorough: bool) -> BoxedStrategy<ConcCase> {
+    let key = 0u8..3;
+    let cycle = (key.clone(), prop::collection::vec(read_kind_strategy(), 1..=3), any::<bool>(), prop_oneof![3 => Just(None), 1 => (1u32..=3).prop_map(|s| Some(TtlSel::Secs(s)))]).prop_map(|(k, kinds, upsert_first, ttl)| {
+        let mut ops = vec![COp::Put { k, extra: 0, explicit: true, ttl, wait: true }];
+        if upsert_first { ops.push(COp::Upsert { k, down: 0, ttl: TtlReq::Keep, wait: true }); }
+        ops.push(COp::Delete { k, wait: false });
+        for kind in kinds { ops.push(COp::Read { kind, keys: vec![k] }); }
+        ops.push(COp::AwaitAll);
+        ops
+    });
+    let deleter = prop::collection::vec(cycle, 2..=(if thorough { 20 } else { 8 })).prop_map(|cycles| cycles.into_iter().flatten().collect::<Vec<COp>>());
+    let reader_op = prop_oneof![6 => (read_kind_strategy(), prop::collection::vec(key.clone(), 1..=3)).prop_map(|(kind, keys)| COp::Read { kind, keys }), 3 => (key.clone(), 20u16..600).prop_map(|(k, micros)| COp::HoldRef { k, micros }), 1 => (1u8..3).prop_map(COp::Pause)];
+    let readers = prop::collection::vec(prop::collection::vec(reader_op, 10..=(if thorough { 120 } else { 50 })), 1..=5);
+    let delay = prop_oneof![(20u16..400).prop_map(Delay::SleepUs), (1u8..4).prop_map(Delay::Yield)];
+    let extra_site = prop_oneof![Just(Site::DeleteAfterMarkDeleted as u8), Just(Site::ReadAfterStore as u8), Just(Site::SendBefore as u8), Just(Site::WorkerBeforeAcknowledge as u8), Just(Site::PoolAdd as u8)];
+    let injection = ((100u8..=255, (30u16..500).prop_map(Delay::SleepUs)), prop::collection::vec((extra_site, 30u8..=255, delay), 0..=3), any::<u64>())
+        .prop_map(|((probability, worker_delay), mut sites, seed)| { sites.push((Site::WorkerAfterDequeue as u8, probability, worker_delay)); Injection { sites, seed: seed | 1 } });
+    let cfg = (prop_oneof![Just(1usize), Just(2), Just(8)], 1usize..=2, 1usize..=4, prop_oneof![Just(HashMode::Identity), Just(HashMode::Default)])
+        .prop_map(|(cmd_buf, pool, buf, hash)| Cfg { counters: 1000, capacity: 16, max_weight: 4000, shards: 2, cmd_buf, pool, buf, tick_us: 500, hash, weight_mode: WeightMode::Table(vec![8, 11, 14, 17, 20]), start_ns: 0 });
+    (cfg, deleter, readers, injection).prop_map(|(cfg, deleter, readers, injection)| {
+        let mut threads = vec![deleter];
+        threads.extend(readers);
+        ConcCase { cfg, threads, injection, clock: Vec::new(), monitor: false, consumer: ConsumerMode::Free }
+    }).boxed()
+}
+
 pub fn conc_case_strategy(profile: ConcProfile, thorough: bool) -> BoxedStrategy<ConcCase> {
+    if profile == ConcProfile::DeleteWindow { return delete_window_strategy(thorough); }
     let (max_threads, max_ops) = match profile {
         ConcProfile::Deadlock => (if thorough { 12 } else { 8 }, 40),
         ConcProfile::Reads => (if thorough { 16 } else { 8 }, if thorough { 400 } else { 150 }),
@@ -401,8 +442,10 @@ pub fn check_conc(case: &ConcCase, run: &ConcRun, property: &str) -> Check {
     let start_clock = BASE_SECS * 1_000_000_000 + case.cfg.start_ns;
     let ordered: Vec<&str> = {
         let all = ["progress", "C13", "C11", "C02", "C01", "C05", "C15"];
-        let mut first: Vec<&str> = all.iter().copied().filter(|name| *name == property).collect();
-        first.extend(all.iter().copied().filter(|name| *name != property));
+        // progress first: a blocked or crashed run has an incomplete history, which the other checkers must not judge
+        let mut first: Vec<&str> = vec!["progress"];
+        first.extend(all.iter().copied().filter(|name| *name == property && *name != "progress"));
+        first.extend(all.iter().copied().filter(|name| *name != property && *name != "progress"));
         first
     };
     for name in ordered {
@@ -410,7 +453,7 @@ pub fn check_conc(case: &ConcCase, run: &ConcRun, property: &str) -> Check {
             "progress" => check_progress(history)?,
             "C13" => check_c13(history)?,
             "C11" => check_c11(history)?,
-            "C02" => check_c02(history, start_clock)?,
+            "C02" => check_c02(history, start_clock, property == "C02")?,
             "C01" => check_c01(history, case.cfg.max_weight)?,
             "C05" => { if let Some(snapshot) = &run.snapshot { check_snapshot_consistency(snapshot)?; } }
             "C15" => check_c15(case, history)?,
@@ -435,6 +478,7 @@ pub fn conc_case_result(case: &ConcCase, property: &str, repeats: u32, stall_win
             ("with_injected_delay", stats.delays > 0), ("two_sites_delayed", stats.distinct_sites_delayed >= 2), ("send_blocked_on_full_queue", stats.queue_full_sends),
             ("commands_in_flight_from_two_threads", stats.concurrent_in_flight), ("with_shutting_down_ack", stats.shutting_down_acks > 0), ("with_buffer_handover", stats.handovers > 0),
             ("with_dropped_buffer", stats.drops > 0), ("with_clock_thread", stats.sweeps_during_run), ("with_space_rejection", stats.evicted_or_rejected), ("unawaited_same_key_writes", stats.unawaited_same_key),
+            ("read_between_delete_return_and_ack", stats.read_between_delete_and_ack), ("guard_held_while_delete_called", stats.guard_held_during_delete),
         ] {
             let slot = classes.entry(name.to_string()).or_insert(0);
             if present { *slot = 1; }
